@@ -92,8 +92,11 @@ theorem Dense.apply_size {α : Type} [Field α] (tiny : α → Bool) (A : Dense 
     (h : A.apply tiny x r tr = some r') : r'.size = if tr then A.cols else A.rows := by
   by_cases hc : (r.size != (if tr then A.cols else A.rows) || x.size != (if tr then A.rows else A.cols)) = true
   · simp [Dense.apply, hc] at h
-  · by_cases h0 : (r.size == 0 && x.size == 0) = true
-    · simp [Dense.apply, hc, h0] at h
+  · have hc' := hc
+    simp only [Bool.or_eq_true, bne_iff_ne, ne_eq, not_or, Decidable.not_not] at hc'
+    by_cases h0 : (r.size == 0) = true
+    · simp only [Dense.apply, hc, h0, if_true, Bool.false_eq_true, if_false, Option.some.injEq] at h
+      rw [← h]; exact hc'.1
     · simp only [Dense.apply, hc, h0, Bool.false_eq_true, if_false, Option.some.injEq] at h
       rw [← h]; cases tr <;> simp [Dense.kernel, Dense.kernelT]
 
@@ -104,8 +107,9 @@ theorem Dense.applyAxpy_size {α : Type} [Field α] (tiny : α → Bool) (A : De
   · simp [Dense.applyAxpy, hc] at h
   · have hc' := hc
     simp only [Bool.or_eq_true, bne_iff_ne, ne_eq, not_or, Decidable.not_not] at hc'
-    by_cases h0 : (r.size == 0 && x.size == 0) = true
-    · simp [Dense.applyAxpy, hc, h0] at h
+    by_cases h0 : (r.size == 0) = true
+    · simp only [Dense.applyAxpy, hc, h0, if_true, Bool.false_eq_true, if_false, Option.some.injEq] at h
+      rw [← h]; exact hc'.1.1
     · by_cases h1 : tiny al = true
       · simp only [Dense.applyAxpy, hc, h0, h1, if_true, Bool.false_eq_true, if_false, Option.some.injEq] at h
         rw [← h]; cases ali <;> simp [hc'.1.1, hc'.2]
@@ -188,8 +192,9 @@ theorem Banded.apply_size {α : Type} [Field α] (tiny : α → Bool) (A : Bande
   · simp [Banded.apply, hc] at h
   · have hc' := hc
     simp only [Bool.or_eq_true, bne_iff_ne, ne_eq, not_or, Decidable.not_not] at hc'
-    by_cases h0 : (r.size == 0 && x.size == 0) = true
-    · simp [Banded.apply, hc, h0] at h
+    by_cases h0 : (r.size == 0) = true
+    · simp only [Banded.apply, hc, h0, if_true, Bool.false_eq_true, if_false, Option.some.injEq] at h
+      rw [← h]; exact hc'.1
     · simp only [Banded.apply, hc, h0, Bool.false_eq_true, if_false, Option.some.injEq] at h
       rw [← h]
       simp [Banded.kernel, Banded.bandedLoop_size, initR_size tiny A.rows 0 r r true hc'.1 hc'.1]
@@ -200,8 +205,9 @@ theorem Banded.applyAxpy_size {α : Type} [Field α] (tiny : α → Bool) (A : B
   · simp [Banded.applyAxpy, hc] at h
   · have hc' := hc
     simp only [Bool.or_eq_true, bne_iff_ne, ne_eq, not_or, Decidable.not_not] at hc'
-    by_cases h0 : (r.size == 0 && x.size == 0) = true
-    · simp [Banded.applyAxpy, hc, h0] at h
+    by_cases h0 : (r.size == 0) = true
+    · simp only [Banded.applyAxpy, hc, h0, if_true, Bool.false_eq_true, if_false, Option.some.injEq] at h
+      rw [← h]; exact hc'.1.1
     · by_cases h1 : (A.usedElements == 0 || tiny al) = true
       · simp only [Banded.applyAxpy, hc, h0, h1, if_true, Bool.false_eq_true, if_false, Option.some.injEq] at h
         rw [← h]; cases ali <;> simp [hc'.1.1, hc'.2]
